@@ -208,3 +208,54 @@ def assignments_to(func, var_id):
             if lc[0] == "var" and lc[1] == var_id:
                 out.append((x, r))
     return out
+
+
+# ---- derived state (caches) ------------------------------------------------------------
+
+def check_derived_state(ctx, rep, rid, prog, scope=None):
+    """A const member function that writes a member of its own class keeps *derived state* (a cache). That is sound
+    only if every function that writes something the const function reads also writes the cache (invalidates it).
+    Reports one instance per const function with own-member writes; returns the number of const methods examined."""
+    eff = ctx.eff
+    trans = eff.transitive()
+    n = 0
+    for f in prog.funcs.values():
+        if f.kind != "CXXMethodDecl" or not f.is_const or f.cls is None:
+            continue
+        if scope is not None and f.short not in scope:
+            continue
+        n += 1
+        s = eff.summary(f)
+        own = {q for q in list(s["writes"]) + list(s["escapes"]) if q.startswith(f.cls + "::")}
+        # only writes through `this`
+        ownw = set()
+        for q in own:
+            for x, u in s["writes"].get(q, []) + s["escapes"].get(q, []):
+                c = canon(x)
+                if c[0] == "field" and c[2] == ("this",):
+                    ownw.add(q)
+        if not ownw:
+            continue
+        reads = {r for r in trans[f.key]["reads"] if r.startswith(f.cls + "::")} - ownw
+        stale = []
+        for g in prog.funcs.values():
+            if g.key == f.key or g.kind in ("CXXConstructorDecl", "CXXDestructorDecl") and g.cls == f.cls:
+                continue
+            sg = eff.summary(g)
+            gw = set(sg["writes"]) | set(sg["escapes"])
+            touched = gw & reads
+            if not touched:
+                continue
+            if gw & ownw or (trans[g.key]["writes"] & ownw):
+                continue
+            stale.append((g, sorted(short(t) for t in touched)))
+        what = "const %s keeps derived state in %s" % (f.short, sorted(short(w) for w in ownw))
+        if stale:
+            g, t = stale[0]
+            rep.violation(rid, g.decl, g, what,
+                          "%s modifies %s, which %s reads, without invalidating the derived state (%d such writer(s): %s): the cached result goes stale" % (
+                              g.short, t, f.short, len(stale), sorted(x.short for x, _t in stale)[:6]),
+                          key="%s|derived state not invalidated by %s" % (f.short, g.short))
+        else:
+            rep.holds(rid, f.decl, f, what, "every writer of what it reads also invalidates it")
+    return n
